@@ -151,6 +151,39 @@ def check(run, model, tier):
     wkeys = [norm(n.slice) for n in walk_shallow(rs.node) if isinstance(n, ast.Subscript) and isinstance(n.ctx, ast.Store)]
     ok = any(k == rs.params[2] for k in wkeys) and any('.__name__' in norm(n) for n in walk_shallow(rs.node) if isinstance(n, ast.Subscript))
     run.inst('TABLE.registries', rs, 'callbacks stored under [state name][signal]', ok, 'register_signal_callback stores under %s' % wkeys, obligation=True)
+    # the stored callback is the very object the caller registered (a bound method keeps its own `self`), and the template calls it by its kind
+    fnp = rs.params[3] if len(rs.params) > 3 else None
+    stores_ = [n for n in walk_shallow(rs.node) if isinstance(n, ast.Assign) and any(isinstance(t, ast.Subscript) and norm(t.slice) == rs.params[2] for t in n.targets)]
+    rebinds_ = [n for n in walk_shallow(rs.node) if isinstance(n, (ast.Assign, ast.AugAssign)) and
+                any(isinstance(t, ast.Name) and t.id == fnp for t in (n.targets if isinstance(n, ast.Assign) else [n.target]))]
+    ok = bool(stores_) and all(isinstance(n.value, ast.Name) and n.value.id == fnp for n in stores_) and not rebinds_
+    run.inst('TABLE.registries', rs, 'the registered callback object itself is stored', ok,
+             '' if ok else ('register_signal_callback does not store the callback it was given (%s): a bound method of another object loses its receiver and later runs with the chart as `self`'
+                            % (norm(rebinds_[0]) if rebinds_ else ', '.join(norm(n.value) for n in stores_))), obligation=True)
+    tmpl_ = model.func('hsm.state_method_template').nested.get('base_state_method')
+    if tmpl_ is None:
+        raise AnalysisError('state_method_template.base_state_method not found')
+    from sa.boolflow import must_atoms as _ma
+    gt_ = cfg_of(tmpl_)
+    cbvars = {it.optional_vars.id for n in walk_shallow(tmpl_.node) if isinstance(n, ast.With) for it in n.items
+              if isinstance(it.optional_vars, ast.Name) and 'signal_callback' in norm(it.context_expr)}
+    n_cb = 0
+    for n in gt_.nodes:
+        if n.kind in ('entry', 'exit', 'xexit', 'def'):
+            continue
+        for c in n.calls():
+            if isinstance(c.func, ast.Name) and c.func.id in cbvars:
+                n_cb += 1
+                atoms = _ma(gt_, n, tmpl_.node, params=tmpl_.params)
+                is_m = any(l == 'inspect.ismethod(%s)' % c.func.id and op == 'Truthy' for (l, op, r) in atoms)
+                not_m = any(l == 'inspect.ismethod(%s)' % c.func.id and op == 'Falsy' for (l, op, r) in atoms)
+                nargs = len(c.args)
+                ok = (is_m and nargs == 1) or (not_m and nargs == 2)
+                run.inst('TEMPLATE.protocol', tmpl_, 'callback called by its kind: %s' % norm(c), ok,
+                         '' if ok else ('the template handler calls the registered callback as %s without distinguishing bound methods (called with the event) from plain functions (called with '
+                                        'chart and event): a handler registered as a bound method of a delegate object is called with the wrong arguments / the wrong self' % norm(c)),
+                         node=c, obligation=True)
+    run.floor('template: callback call sites', n_cb, 2)
     rkeys = [norm(n.slice) for n in walk_shallow(sc.node) if isinstance(n, ast.Subscript)]
     ok = any(k.endswith('.signal') for k in rkeys)
     run.inst('TABLE.registries', sc, 'callbacks looked up under [state name][e.signal]', ok, 'signal_callback looks up %s' % rkeys, obligation=True)
